@@ -140,6 +140,11 @@ def run_replay(path: str, timeout=300) -> tuple[bool, str]:
     """Run a replay script on the real code.  True = violation reproduces (exit 1)."""
     import subprocess
 
+    try:
+        with open(path) as fh:
+            compile(fh.read(), path, "exec")
+    except SyntaxError as exc:
+        return False, f"replay script does not compile: {exc}"
     proc = subprocess.run(
         [sys.executable, path], capture_output=True, text=True, timeout=timeout, check=False
     )
